@@ -282,15 +282,21 @@ def handle (toks : List String) : Option String :=
       | .ok a => a.headerChecksum
       | _ => []
     let bad := arch.set 25 ((arch.getD 25 0) ^^^ 16)
+    let hsz := match tryInit Blake2b.hash [] (honestReadAt arch) with
+      | .ok a => a.headerSize
+      | _ => 0
+    let cut := arch.take (hsz - 32)       -- the file ends inside the header checksum
     let prior : Option Node :=
       if outState = "absent" then none
       else if outState = "regular-short" then some (.regular (junk 230))
       else if outState = "regular-long" then some (.regular (junk 1200))
       else if outState = "blockdev-big" then some (.blockdev (junk 764))
       else some (.blockdev (junk 690))
-    let fs : Fs := [("a.cba", .regular arch), ("bad.cba", .regular bad), ("junk.cba", .regular (pattern 200))] ++
+    let fs : Fs := [("a.cba", .regular arch), ("bad.cba", .regular bad), ("junk.cba", .regular (pattern 200)),
+                    ("cut.cba", .regular cut)] ++
       (match prior with | some n => [("out", n)] | none => [])
-    let apath := if akind = "corrupt-header" then "bad.cba" else if akind = "not-an-archive" then "junk.cba" else "a.cba"
+    let apath := if akind = "corrupt-header" then "bad.cba" else if akind = "not-an-archive" then "junk.cba"
+      else if akind = "cut-in-checksum" then "cut.cba" else "a.cba"
     let pin : Option Bytes :=
       if akind = "pin-mismatch" then some (hc.set 0 ((hc.getD 0 0) ^^^ 1))
       else if akind = "pin-prefix" then some (hc.take 4)
